@@ -339,6 +339,7 @@ class Gen:
         self.roots = {w: self.nodes[w][0] for w in self.warps}
         self.missing = {w: set() for w in self.warps}       # node ids that are referenced but get no record
         self.edges = {w: [] for w in self.warps}
+        self.reachable = {}
         self.natt, self.eatt = {}, {}
         self.parent = {self.warps[0]: None}
         self.junk = []
@@ -349,10 +350,20 @@ class Gen:
                     self.missing[w].add(n)
             if rng.random() < 0.05:
                 self.missing[w].add(ns[0])                    # root node without record
-            ne = 0 if rng.random() < 0.25 else rng.randint(0, 2 * len(ns))   # edge-free instances: every node isolated
-            eids = distinct(rng, ne)
-            for eid in eids:
-                self.edges[w].append((eid, rng.choice(ns), rng.choice(ns), rng.choice(self.types)))
+            # mostly connected from the root: each further node hangs off an already reachable one
+            # (75%), the rest is unreachable junk; plus a few arbitrary extra edges (cycles, parallel
+            # edges, edges out of junk, self loops).  12% of the instances have no edges at all.
+            self.reachable[w] = [ns[0]]
+            if rng.random() >= 0.12:
+                for n in ns[1:]:
+                    if rng.random() < 0.75:
+                        f = rng.choice(self.reachable[w])
+                        self.edges[w].append((rid(rng), f, n, rng.choice(self.types)))
+                        self.reachable[w].append(n)
+                for _ in range(rng.randint(0, len(ns))):
+                    self.edges[w].append((rid(rng), rng.choice(ns), rng.choice(ns), rng.choice(self.types)))
+                seen = set()
+                self.edges[w] = [e for e in self.edges[w] if not (e[0] in seen or seen.add(e[0]))]
             for n in ns:
                 if rng.random() < 0.4:
                     self.natt[(w, n)] = ratom(rng, self.types)
@@ -362,13 +373,15 @@ class Gen:
         # portals: child i hangs off a slot of an earlier warp
         for i, cw in enumerate(self.warps[1:], 1):
             pw = rng.choice(self.warps[:i])
-            if self.edges[pw] and rng.random() < 0.5:
-                e = rng.choice(self.edges[pw])
+            near = rng.random() < 0.85          # portal on a slot reachable inside the parent instance
+            r_edges = [e for e in self.edges[pw] if e[1] in self.reachable[pw]]
+            if (r_edges if near else self.edges[pw]) and rng.random() < 0.5:
+                e = rng.choice(r_edges if near else self.edges[pw])
                 key = (2, 2, pw, e[0])
                 if wellformed or rng.random() < 0.7:
                     self.eatt[(pw, e[0])] = ("d", cw)
             else:
-                cand = [n for n in self.nodes[pw] if n not in self.missing[pw]] or self.nodes[pw]
+                cand = [n for n in (self.reachable[pw] if near else self.nodes[pw]) if n not in self.missing[pw]] or self.nodes[pw]
                 n = rng.choice(cand)
                 key = (1, 1, pw, n)
                 if wellformed or rng.random() < 0.7:
@@ -655,10 +668,10 @@ def run(tier, seed, replay=None):
         cases = [d["replay"]["case"]] if "case" in d.get("replay", {}) else []
     else:
         cases = vf.load_corpus(PROP)
-        n = 240 if tier == "quick" else 6000
+        n = 240 if tier == "quick" else 2400
         for i in range(n):
             cases.append(gen_case(r.rng, tier, i))
-        for i in range(6 if tier == "quick" else 200):
+        for i in range(6 if tier == "quick" else 100):
             cases.append(f3_case(r.rng, r.rng.getrandbits(32), exact=False))
     try:
         bins = vf.cargo_build(["c06", "vfhash"])
